@@ -27,6 +27,7 @@ INVARIANT EmitState
 CHECK_DEADLOCK FALSE
 """
 TOL = 1e-8
+CPLX_KINDS = ("eig2c", "eig2cc", "eig2ch", "eig2rot", "eig_mixed")
 
 
 def tdot(a, b):
@@ -94,20 +95,26 @@ def run(rep, tier, seed):
     rep.add_tlc(res, "MC_CFactor_D2")
     for r in res.records:
         r["D"] = 2; r["zo"] = 0
-    if {r["kind"] for r in res.records} != {"eig2c", "eig2cc", "eig2ch"}:
+    if {r["kind"] for r in res.records} != {"eig2c", "eig2cc", "eig2ch", "eig2rot"}:
         raise Machinery("MC_CFactor: complex eigenproblems not generated")
     recs += res.records
     stale_out = {}
     groups = {}
     for r in recs:
         groups.setdefault((r["kind"], r["D"], r["zo"]), []).append(r)
+    rot = [r for r in recs if r["kind"] == "eig2rot"]; cre = [r for r in recs if r["kind"] in ("eig2c", "eig2ch")]
+    groups[("eig_mixed", 2, 0)] = []
     for (kind, D, zo), rs in sorted(groups.items()):
         rs = sorted(rs, key=lambda r: (r["q"], r["b"]))
         packs = [[r] for r in rs] + [[rs[i], rs[(i + 1) % len(rs)]] for i in range(len(rs)) if len(rs) > 1] \
             + [[rs[i], rs[(i + 1 + len(rs) // 2) % len(rs)]] for i in range(0, len(rs), 2) if len(rs) > 3]
+        if kind == "eig_mixed":
+            # directions of different nature in one polynomial: a real matrix with a conjugate-pair spectrum next to a real
+            # spectrum (either order): whether the result is real or complex must not be decided from one direction
+            packs = [[a_, b_] for a_, b_ in zip(rot, cre)] + [[b_, a_] for a_, b_ in zip(rot, cre[::-1])]
         for pack in packs:
             P = len(pack)
-            a2d = carr_to_data if kind in ("eig2c", "eig2cc", "eig2ch") else arr_to_data
+            a2d = carr_to_data if kind in CPLX_KINDS else arr_to_data
             get = lambda name: numpy.stack([a2d(r["inst"][name], D) for r in pack], axis=1)
             A = get("A")
             Au = UTPM(A.copy())
@@ -211,7 +218,7 @@ def run(rep, tier, seed):
                     resid(rep, sig, det, "U diag(s) V^T = A", tdot(Ud, tdot(diag_poly(sd, 3, 2), tT(Vd))), A, sc)
                     resid(rep, sig, det, "U^T U = I", tdot(tT(Ud), Ud), eye_poly(D, P, 3), 1.0)
                     resid(rep, sig, det, "V^T V = I", tdot(tT(Vd), Vd), eye_poly(D, P, 2), 1.0)
-                elif kind in ("eig2", "eig2c", "eig2cc", "eig2ch"):
+                elif kind in ("eig2",) + CPLX_KINDS:
                     lams = get("lam")
                     l, X = algopy.eig(Au)
                     ld, Xd = (l.data, X.data) if kind != "eig2" else (numpy.real_if_close(l.data), numpy.real_if_close(X.data))
